@@ -273,7 +273,7 @@ class PathCtx:
             # light checks of both sides first: if one side contradicts the path condition
             # (+ linear axioms) the other one is taken without a full query
             lt = lf = None
-            if self.n_heavy:
+            if self.n_heavy and self.ex.light_decide:
                 lt, _ = self._check(cond, light=True)
                 if lt != 'unsat':
                     lf, _ = self._check(z3.Not(cond), light=True)
@@ -349,7 +349,18 @@ class PathCtx:
                 self.solver.set('timeout', 3000)
                 r, m = self._check(*(list(extra) + eqs))
                 if r == 'sat':
-                    return m
+                    # make the model faithful on exp/log atoms: add the points at the
+                    # model's arguments and ask again with every input pinned
+                    for _ in range(3):
+                        if not self.refine(m):
+                            return m
+                        r2, m2 = self._check(*(list(extra) + self.pins(m)))
+                        if r2 != 'sat':
+                            m = None
+                            break
+                        m = m2
+                    if m is not None:
+                        return m
         finally:
             self.solver.set('timeout', old_to)
         return None
@@ -496,8 +507,9 @@ class Explorer:
     def __init__(self, max_paths=400, wall_s=120.0, query_timeout_ms=20000, seed=0,
                  want_sample=True, rlimit=4000000, oneshot=False,
                  light_timeout_ms=5000, reduce_powers=True, resolve_ite=False,
-                 merge_exp=True):
+                 merge_exp=True, light_decide=False):
         self.rlimit = rlimit
+        self.light_decide = light_decide
         self.reduce_powers = reduce_powers
         self.resolve_ite = resolve_ite
         self.merge_exp = merge_exp
